@@ -21,7 +21,7 @@ LEVEL_TEXT = "Fault-plan search over the share format with an independent good-s
 ASSUMPTIONS = ["servers store honestly; one server may fail reads or drop the connection during the check", "a share whose container header is cut short makes its server error out and is not generated here (see C03)"]
 REQUIRED_CLASSES = ["server-fault-during-repair", "server-fault-during-check", "verify", "no-verify", "healthy", "unhealthy-recoverable", "unrecoverable", "repair-ok", "corrupt-detected", "multi-segment", "unused-field-damage", "read-from-new-shares-alone"]
 BUDGET = {"quick": 900, "thorough": 7200}
-DAMAGE = ["delete", "delete", "flip-all-blocks", "bad-share-version", "flip-data-byte", "flip-block-hash", "flip-share-hash", "flip-ueb", "flip-cthash", "trunc-mid-data", "trunc-end-1", "flip-unused", "reblock", "reblock-one"]
+DAMAGE = ["delete", "delete", "flip-all-blocks", "bad-share-version", "flip-data-byte", "flip-block-hash", "flip-share-hash", "flip-ueb", "flip-cthash", "trunc-mid-data", "trunc-end-1", "flip-unused", "reblock", "reblock-one", "ueb-len-plus"]
 UNUSED = {"flip-unused"}
 
 
